@@ -204,6 +204,16 @@ func runC16(t *testing.T, sci interface{}, keepLog bool) *hx.Outcome {
 	advance := func(s *simrt.Sim, to time.Duration) {
 		// every goroutine is blocked and the clock is about to move: a session whose application has called Close, whose
 		// peer reads and which nothing else disturbs must be over by now - it must not need a read or write timeout to end
+		if sc.AccErrs == 0 && len(sc.Conns) <= int(sc.MaxConn) {
+			// ... and the accept loop must have served every connection made so far (none is surplus, no accept error makes
+			// it back off): a connection still waiting for its session now is waiting for another session to end
+			for ci, cs := range states {
+				if !cs.plan.Direct && !cs.started && cs.client != nil {
+					s.Fail("accept-loop-stalled", "client-%d was dialled, it is not surplus and no accept error was injected, yet it has no session when nothing can run any more without the clock advancing (to %v): the accept loop is not serving connections while a session runs", ci, to)
+					return
+				}
+			}
+		}
 		for ci, cs := range states {
 			if cs.closeReq && cs.exits == 0 && clean(cs) {
 				s.Fail("local-close-waits-for-a-timeout", "client-%d: the application called Close on the session, the peer reads, yet the session is still not over when nothing can run any more without the clock advancing (to %v)", ci, to)
